@@ -195,6 +195,12 @@ class OkAggregate:
             self.problem = "Ok payload is not a struct/enum literal"
             self.payload_def = d
             return
+        edits = self.pv.tampered(okop, o["bb"], o["idx"])
+        if edits:
+            # `let mut m = Self {..}; m.x.clear(); Ok(m)`: the literal is not what is returned (DESIGN 3.18)
+            self.problem = "the value is edited in place between its construction and the return: " + "; ".join(sorted(set(edits)))
+            self.payload_def = d
+            return
         rv, bb, idx = d[1], d[2], d[3]
         self.rv = rv
         self.adt = rv.get("adt")
@@ -282,7 +288,11 @@ def slot_kind(prog, fn, pv, vl, agg, name):
             return d
         if c[1] == TRY_INTO and a0 == ("tryok", ("call", TRY_INTEGER, (elem,), a0[1][3] if a0[0] == "tryok" and is_call(a0[1]) else None)):
             site = fn.blocks[c[3][1]]["term"]["callee"]
-            d["kind"] = "int<%s>" % site["args"][1]
+            src = site["args"][0] if site.get("args") else "?"
+            # the narrowing must start from the CBOR integer itself (full range -2^64..2^64-1): `i64 -> u64` after a helper
+            # that already narrowed would reject the upper half of the unsigned range
+            d["kind"] = "int<%s>" % site["args"][1] if src == "ciborium::value::integer::Integer" \
+                else "int<%s> narrowed from %s, not from the CBOR integer" % (site["args"][1], src)
             return d
         if (c[1].endswith("::from_cbor_value") or c[1].endswith("::from_cbor_value_depth")) and a0 == elem:
             d["kind"] = "nested<%s>" % type_of_decoder(_full_self(fn, c))
@@ -320,6 +330,8 @@ def slot_kind(prog, fn, pv, vl, agg, name):
     # optional trailing element: phi{ X(elem)?, default } selected by the length
     if t[0] == "phi" and len(t[1]) == 2:
         alist = agg.arms(name)
+        if len(alist) < 2:
+            alist = [(x, None) for x in t[1]]      # one definition whose value is a choice (combinators reduced to a phi)
         withel = [(x, b) for x, b in alist if any(s == elem for s in subterms(x))]
         without = [(x, b) for x, b in alist if not any(s == elem for s in subterms(x))]
         if len(withel) == 1 and len(without) == 1:
@@ -592,6 +604,9 @@ def apply_fn(prog, fterm, args):
         names = prog.enums.get(adt)
         if names and var in names.values():
             return ("aggr", adt, var, tuple((str(i), a) for i, a in enumerate(args)))
+        if fterm[2] in prog.fns or fterm[2].startswith("<"):
+            # a named crate function used as a function value (`o.map(Value::try_as_bytes)`): the call it stands for
+            return ("call", fterm[2], tuple(args), ("<fn-item>", fterm[1]))
         return None
     if fterm[0] == "closure":
         f = prog.fns.get(fterm[1])
